@@ -62,6 +62,7 @@ for _s, _h in _sig.items():
         pass
 from radical.pilot.agent.launch_method.fork   import Fork
 from radical.pilot.agent.launch_method.mpirun import MPIRun
+from radical.pilot.agent.launch_method.mpiexec import MPIExec
 from radical.pilot.resource_config        import Slot
 
 
@@ -105,11 +106,15 @@ def env_key(cfg, i):
     return KEYS[kinds[i] if i < len(kinds) else 'fresh'] % (i + 1)
 
 
+# the stand-ins log "<what> <rank> <RP_RANK>": <rank> is the rank the launcher
+# started (C10_TRUE_RANK, set by the MPI stand-in next to the flavor's native rank
+# variable; Fork starts the one script itself: the RP_RANK it exports), -1 in the
+# launch script
 _CMD = '''#!/bin/sh
-# pre/post command stand-in: log "<id> <rank>", exit as the case demands
-r="${RP_RANK:--1}"
-echo "$1 $r" >> "$C10_OUT/cmd.log"
-f="$C10_OUT/rc.$1.$r"
+# pre/post command stand-in: log the call, exit as the case demands
+r="${RP_RANK:--1}"; t="${C10_TRUE_RANK:-$r}"
+echo "$1 $t $r" >> "$C10_OUT/cmd.log"
+f="$C10_OUT/rc.$1.$t"
 rc=0
 [ -f "$f" ] && read rc < "$f"
 exit $rc
@@ -117,25 +122,25 @@ exit $rc
 
 _CTRL = '''#!/bin/sh
 # $RP_CTRL stand-in (radical-pilot-control): log the call and its arguments
-r="${RP_RANK:--1}"
-echo "ctrl $r" >> "$C10_OUT/cmd.log"
-echo "$*" >> "$C10_OUT/ctrl.$r"
+r="${RP_RANK:--1}"; t="${C10_TRUE_RANK:-$r}"
+echo "ctrl $t $r" >> "$C10_OUT/cmd.log"
+echo "$*" >> "$C10_OUT/ctrl.$t"
 exit 0
 '''
 
 _EXE = '''#!/bin/sh
 # executable stand-in: dump argv / environ / cwd, write to stdout and stderr
-r="${RP_RANK:--1}"
+r="${RP_RANK:--1}"; t="${C10_TRUE_RANK:-$r}"
 o="$C10_OUT"
-echo "exec $r" >> "$o/cmd.log"
-for a in "$@"; do printf '%s\\000' "$a"; done > "$o/argv.$r"
-env -0 > "$o/env.$r"
-pwd -P > "$o/cwd.$r"
-echo "OUT:$r"
-echo "ERR:$r" 1>&2
-case "$r" in
+echo "exec $t $r" >> "$o/cmd.log"
+for a in "$@"; do printf '%s\\000' "$a"; done > "$o/argv.$t"
+env -0 > "$o/env.$t"
+pwd -P > "$o/cwd.$t"
+echo "OUT:$t"
+echo "ERR:$t" 1>&2
+case "$t" in
   -1) rc=0 ;;
-  *)  eval "rc=\\${C10_RC_$r:-0}" ;;
+  *)  eval "rc=\\${C10_RC_$t:-0}" ;;
 esac
 exit $rc
 '''
@@ -143,26 +148,30 @@ exit $rc
 _EXE_PY = '''#!/venv/bin/python
 import os, sys
 r = os.environ.get('RP_RANK', '-1')
+t = os.environ.get('C10_TRUE_RANK', r)
 o = os.environ['C10_OUT']
 with open(o + '/cmd.log', 'a') as fh:
-    fh.write('exec %s\\n' % r)
-with open(o + '/argv.' + r, 'wb') as fh:
+    fh.write('exec %s %s\\n' % (t, r))
+with open(o + '/argv.' + t, 'wb') as fh:
     fh.write(b''.join(os.fsencode(a) + b'\\0' for a in sys.argv[1:]))
-with open(o + '/env.' + r, 'wb') as fh:
+with open(o + '/env.' + t, 'wb') as fh:
     fh.write(b''.join(k + b'=' + v + b'\\0' for k, v in os.environb.items()))
-with open(o + '/cwd.' + r, 'w') as fh:
+with open(o + '/cwd.' + t, 'w') as fh:
     fh.write(os.path.realpath(os.getcwd()) + '\\n')
-sys.stdout.write('OUT:%s\\n' % r)
-sys.stderr.write('ERR:%s\\n' % r)
-sys.exit(int(os.environ.get('C10_RC_' + r, '0')))
+sys.stdout.write('OUT:%s\\n' % t)
+sys.stderr.write('ERR:%s\\n' % t)
+sys.exit(int(os.environ.get('C10_RC_' + t, '0')))
 '''
 
 _MPIRUN = '''#!/bin/sh
-# MPI launcher stand-in: n instances, rank id in PMIX_RANK, output forwarded
-n=$1; shift
+# MPI launcher stand-in: n instances of the command, the rank id announced in the
+# flavor's native variables (first argument, comma separated), output forwarded,
+# exit code: the first non-zero one in rank order
+vars=$(echo "$1" | tr , ' '); n=$2; shift 2
 i=0
 while [ $i -lt $n ]; do
-  ( PMIX_RANK=$i "$@"; echo $? > "$C10_OUT/rank.$i.rc" ) &
+  ( for v in $vars; do export $v=$i; done
+    C10_TRUE_RANK=$i "$@"; echo $? > "$C10_OUT/rank.$i.rc" ) &
   i=$((i+1))
 done
 wait
@@ -174,6 +183,39 @@ while [ $i -lt $n ]; do
 done
 exit $rc
 '''
+
+# launcher installations per MPI flavor: class, name, where `which` finds the
+# binary, what the binary prints for the options _get_mpi_info tries (anything
+# else: not understood, exit code 1), the variables the launcher announces the
+# rank in
+FLAVORS = {
+    'ompi'    : {'cls': 'MPIRun', 'name': 'MPIRUN',
+                 'exe': '/usr/lib64/openmpi/bin/mpirun',
+                 'out': {'-V': 'mpirun (Open MPI) 4.1.5\n\nReport bugs to http://www.open-mpi.org/community/help/\n',
+                         '--version': 'mpirun (Open MPI) 4.1.5\n\nReport bugs to http://www.open-mpi.org/community/help/\n'},
+                 'vars': ['PMIX_RANK', 'OMPI_COMM_WORLD_RANK']},
+    'hydra'   : {'cls': 'MPIExec', 'name': 'MPIEXEC',
+                 'exe': '/opt/mpich/4.0.2/bin/mpiexec',
+                 'out': {'--version': 'HYDRA build details:\n    Version:                                 4.0.2\n'
+                                      '    Release Date:                            Thu Apr  7 12:34:45 CDT 2022\n'
+                                      '    CC:                              gcc\n'
+                                      '    Process Manager:                         pmi\n',
+                         '-info': 'HYDRA build details:\n    Version:                                 4.0.2\n'},
+                 'vars': ['PMI_RANK']},
+    'spectrum': {'cls': 'MPIRun', 'name': 'MPIRUN',
+                 'exe': '/opt/ibm/spectrum_mpi/bin/mpirun',
+                 'out': {'-V': 'mpirun (IBM Spectrum MPI) 10.4.0.03rtm0\n\nReport bugs to http://www.ibm.com/\n',
+                         '--version': 'mpirun (IBM Spectrum MPI) 10.4.0.03rtm0\n'},
+                 'vars': ['PMIX_RANK', 'OMPI_COMM_WORLD_RANK']},
+    'pals'    : {'cls': 'MPIExec', 'name': 'MPIEXEC',
+                 'exe': '/opt/cray/pals/1.2.12/bin/mpiexec',
+                 'out': {'--version': 'mpiexec version 1.2.12 revision 1\n'},
+                 'vars': ['PALS_RANKID']},
+    'unknown' : {'cls': 'MPIRun', 'name': 'MPIRUN',
+                 'exe': '/opt/vendor/mpi/bin/mpirun',
+                 'out': {'-V': 'Vendor MPI launcher, release 3.1\n'},
+                 'vars': ['MPI_RANK']},
+}
 
 
 class _Rcfg(dict):
@@ -218,6 +260,7 @@ class World(object):
         _write(self.psbox + '/prof', '#!/bin/sh\nexit 0\n', 0o755)
         _write(self.psbox + '/env/lm_fork.sh',   'export C10_LM_ENV=fork\n')
         _write(self.psbox + '/env/lm_mpirun.sh', 'export C10_LM_ENV=mpirun\n')
+        _write(self.psbox + '/env/lm_mpiexec.sh', 'export C10_LM_ENV=mpiexec\n')
         _write(self.bin + '/c10_cmd',    _CMD,    0o755)
         _write(self.bin + '/c10_exe',    _EXE,    0o755)
         _write(self.bin + '/c10_exe_py', _EXE_PY, 0o755)
@@ -225,6 +268,7 @@ class World(object):
         _write(self.bin + '/c10_ctrl',   _CTRL,   0o755)
         _write(self.bin + '/sleep', '#!/bin/sh\nexec /usr/bin/sleep 0.01\n', 0o755)
         self._lm_of = dict()
+        self.lm_info = dict()
         self._build(task_pre_exec)
 
     def close(self):
@@ -274,17 +318,15 @@ class World(object):
         fork.name, fork._log, fork._prof = 'FORK', rpshim.NullLog(), rpshim.NullLog()
         fork.init_from_info({'env': {}, 'env_sh': 'env/lm_fork.sh'})
 
-        mpi = MPIRun.__new__(MPIRun)
-        mpi.name, mpi._log, mpi._prof = 'MPIRUN', rpshim.NullLog(), rpshim.NullLog()
-        mpi.init_from_info({'env': {}, 'env_sh': 'env/lm_mpirun.sh',
-                            'command': self.bin + '/c10_mpirun', 'mpt': False, 'rsh': False,
-                            'ccmrun': '', 'dplace': '', 'omplace': '',
-                            'mpi_version': '4.1', 'mpi_flavor': MPIRun.MPI_FLAVOR_OMPI})
-        # placement options of a real mpirun are C09's business: the stand-in only
-        # gets the rank count and the exec script
-        mpi.get_launch_cmds = lambda task, exec_path: '%s %d %s' % (
-            mpi._command, task['description']['ranks'], exec_path)
-        self.launchers = {'FORK': fork, 'MPIRUN': mpi}
+        # MPI launchers, one per flavor, through the code's own two-step life cycle:
+        # a first instance inspects the installation (real init_from_scratch ->
+        # _get_mpi_info, with `which` / the binary's output coming from FLAVORS), the
+        # info travels through the registry (JSON), a second instance picks it up
+        # (real init_from_info).  get_rank_cmd of that instance writes the rank-id
+        # lines of the exec script.
+        self.launchers = {'fork': fork}
+        for fl, inst in FLAVORS.items():
+            self.launchers[fl] = self._mpi_launcher(fl, inst)
 
         # the named environment, prepared as the agent does: an env dump
         # `env/rp_named_env.<name>.env` in the pilot sandbox; the real
@@ -299,11 +341,47 @@ class World(object):
         try:
             os.chdir(self.psbox)
             with mock.patch.dict(os.environ, agent, clear=True):
-                for lm in (fork, mpi):
+                for lm in self.launchers.values():
                     lm._pwd = self.psbox
                     lm.get_task_named_env(NENV)
         finally:
             os.chdir(cwd)
+
+    # --------------------------------------------------------------------------
+    def _mpi_launcher(self, fl, inst):
+        cls = {'MPIRun': MPIRun, 'MPIExec': MPIExec}[inst['cls']]
+
+        def which(names):
+            return inst['exe']
+
+        def callout(cmd, *args, **kwargs):
+            words = cmd.split()
+            if '--help' in words or words[0] != inst['exe']:
+                return ['', 'unknown', 1]                    # option probes: not offered
+            out = inst['out'].get(words[-1])
+            return [out, '', 0] if out is not None else ['', 'unrecognized option', 1]
+
+        def make():
+            lm = cls.__new__(cls)
+            lm.name, lm._log, lm._prof = inst['name'], rpshim.NullLog(), rpshim.NullLog()
+            lm._rm_info = ru.Config(from_dict={'details': {}})
+            return lm
+
+        env_sh = 'env/lm_%s.sh' % inst['name'].lower()
+        with mock.patch.object(ru, 'which', which), \
+             mock.patch.object(ru, 'sh_callout', callout), \
+             mock.patch.object(ru, 'get_hostname', lambda: 'c10node0001'):
+            info = make().init_from_scratch({}, env_sh)
+        lm = make()
+        lm.init_from_info(json.loads(json.dumps(info)))
+        self.lm_info[fl] = {'mpi_flavor': str(info.get('mpi_flavor')),
+                            'mpi_version': str(info.get('mpi_version'))}
+        # placement options of a real launcher are C09's business: the stand-in
+        # gets the flavor's rank variables, the rank count and the exec script
+        stub, rvars = self.bin + '/c10_mpirun', ','.join(inst['vars'])
+        lm.get_launch_cmds = lambda task, exec_path: '%s %s %d %s' % (
+            stub, rvars, task['description']['ranks'], exec_path)
+        return lm
 
     # --------------------------------------------------------------------------
     def task_for(self, case):
@@ -401,6 +479,7 @@ class World(object):
             cfg['gq'], cfg['gtype'] = 4 * cfg.pop('gpr', 0), 'CUDA'
         for k in ('sto', 'svc', 'cfgpre', 'prof'):
             cfg.setdefault(k, False)
+        cfg.setdefault('fl', 'none' if cfg['lm'] == 'fork' else 'ompi')
         uid  = case['uid']
         n    = cfg['ranks']
         task, want = self.task_for(case)
@@ -408,7 +487,7 @@ class World(object):
         obs  = '%s/%s' % (self.outs, uid)
         os.makedirs(obs)
 
-        self._lm_of[uid] = 'FORK' if cfg['lm'] == 'fork' else 'MPIRUN'
+        self._lm_of[uid] = 'fork' if cfg['lm'] == 'fork' else cfg['fl']
         gen_error = 'none'
         # per-resource / per-session settings of this case (cases run one at a time)
         self.ex.session.rcfg['task_pre_exec'] = \
@@ -486,13 +565,19 @@ class World(object):
         events = []
         log = read(obs + '/cmd.log', 'r') or ''
         for line in log.splitlines():
-            cid, _, r = line.rpartition(' ')
+            # "<what> <rank the launcher started> <RP_RANK of the script>"
+            cols = line.split(' ')
+            cid  = ' '.join(cols[:-2])
             try:
-                r = int(r)
-            except ValueError:
+                r = int(cols[-2])
+            except (ValueError, IndexError):
                 r = -9
+            try:
+                rid = int(cols[-1])
+            except ValueError:
+                rid = -9
             if cid == 'exec':
-                ev = {'ev': 'Exec', 'r': r}
+                ev = {'ev': 'Exec', 'r': r, 'rid': rid}
                 raw   = read('%s/argv.%d' % (obs, r)) or b''
                 seen  = [a.hex() for a in raw.split(b'\0')[:-1]]
                 envd  = {}
@@ -519,7 +604,8 @@ class World(object):
                                   'seen': s.decode('utf-8', 'replace') if s is not None else 'unset'})
                 s = envd.get('C10_LM_ENV')
                 items.append({'clause': 'LauncherEnv', 'k': 'C10_LM_ENV',
-                              'want': 'fork' if cfg['lm'] == 'fork' else 'mpirun',
+                              'want': 'fork' if cfg['lm'] == 'fork'
+                                      else FLAVORS[cfg['fl']]['name'].lower(),
                               'seen': s.decode('utf-8', 'replace') if s is not None else 'unset'})
                 s = envd.get('RP_INFO_' + SERVICE.replace('.', '_').upper())
                 items.append({'clause': 'ServiceInfo', 'k': 'RP_INFO',
@@ -549,16 +635,16 @@ class World(object):
             elif cid == 'ctrl':
                 calls = (read('%s/ctrl.%d' % (obs, r), 'r') or '').splitlines()
                 k     = sum(1 for e in events if e['ev'] == 'Ctrl' and e['r'] == r)
-                events.append({'ev': 'Ctrl', 'r': r,
+                events.append({'ev': 'Ctrl', 'r': r, 'rid': rid,
                                'want': '%s task_startup_done uid=%s' % (SID, case['uid']),
                                'seen': calls[k] if k < len(calls) else 'unreadable'})
             else:
                 parts = cid.split('.')
                 if len(parts) == 3 and parts[1].isdigit() and (parts[2] == 'g' or parts[2][1:].isdigit()):
                     events.append({'ev': 'Cmd', 'sig': parts[0], 'i': int(parts[1]),
-                                   'who': -1 if parts[2] == 'g' else int(parts[2][1:]), 'r': r})
+                                   'who': -1 if parts[2] == 'g' else int(parts[2][1:]), 'r': r, 'rid': rid})
                 else:
-                    events.append({'ev': 'Cmd', 'sig': 'garbled', 'i': 0, 'who': -1, 'r': r})
+                    events.append({'ev': 'Cmd', 'sig': 'garbled', 'i': 0, 'who': -1, 'r': r, 'rid': rid})
 
         if cfg['lm'] == 'mpi':
             for r in range(n):
@@ -586,7 +672,8 @@ class World(object):
                 'gen_error': gen_error, 'events': events,
                 'sbox': os.path.normpath(want['sbox']), 'names': want['names'],
                 'task_out': want['task_out'], 'task_err': want['task_err'],
-                'gbase': case.get('gbase', 0)}
+                'gbase': case.get('gbase', 0),
+                'lm_info': self.lm_info.get(cfg['fl'], {'mpi_flavor': 'none', 'mpi_version': 'none'})}
 
 
 # ------------------------------------------------------------------------------
